@@ -238,7 +238,47 @@ func RunPipeline(seed int64, tier, driver, outDir string, n int, search bool, co
 			res.Failures = append(res.Failures, core.FailRec{Prop: "C09", Msg: msg, File: file})
 		}
 	}
-	res.Extra = map[string]any{"pushes": pushes, "replies": replies, "full_syncs": syncs, "sync_answers_dropped": drops, "client_mutations_judged": climuts, "connection_cuts": cuts, "out_of_order_deliveries": reorders, "sync_answer_windows": windows, "quiescent_moments_judged": qchecks, "replies_lost_with_a_dropped_connection": lost, "observation_scenarios_where_the_rpc_tracer_rewrote_mutation_called": rewr}
+	// per-mutation updates over reconnects, without a network: every step replayed in Am.RpcMuts
+	nmuts, mutLines := 40, 0
+	if tier == "thorough" {
+		nmuts = 1500
+	}
+	if !search {
+		var mc []core.Case
+		var mobs [][]string
+		for i := 0; i < nmuts; i++ {
+			ls, ob, err := MutsScenario(seed*100151 + int64(i))
+			if err != nil {
+				file := filepath.Join(outDir, fmt.Sprintf("C09-seed%d-muts%d.txt", seed, i))
+				os.WriteFile(file, []byte("# per-mutation updates over reconnects: "+err.Error()+"\n"+strings.Join(ls, "\n")+"\n"), 0o644)
+				res.Failures = append(res.Failures, core.FailRec{Prop: "C09", Msg: "per-mutation updates over reconnects: " + err.Error(), File: file})
+				break
+			}
+			mc = append(mc, core.Case{Lines: ls})
+			mobs = append(mobs, ob)
+		}
+		if len(mc) > 0 {
+			model, err := core.RunModel(driver, mc)
+			if err != nil {
+				res.Disagreements = append(res.Disagreements, core.DisRec{Op: "driver", Model: err.Error()})
+			} else {
+			outer:
+				for i := range mc {
+					for j := range mc[i].Lines {
+						mutLines++
+						if model[i][j] != mobs[i][j] {
+							file := filepath.Join(outDir, fmt.Sprintf("C09-seed%d-mutsdisagree.txt", seed))
+							os.WriteFile(file, []byte("# per-mutation updates over reconnects: the real codec and the Lean model Am.RpcMuts disagree at `"+mc[i].Lines[j]+"`\n# impl : "+mobs[i][j]+"\n# model: "+model[i][j]+"\n"+strings.Join(mc[i].Lines[:j+1], "\n")+"\n"), 0o644)
+							res.Disagreements = append(res.Disagreements, core.DisRec{File: file, Line: j, Op: mc[i].Lines[j], Impl: mobs[i][j], Model: model[i][j]})
+							break outer
+						}
+					}
+				}
+			}
+		}
+	}
+	res.Evaluations += mutLines
+	res.Extra = map[string]any{"per_mutation_reconnect_lines_compared": mutLines, "pushes": pushes, "replies": replies, "full_syncs": syncs, "sync_answers_dropped": drops, "client_mutations_judged": climuts, "connection_cuts": cuts, "out_of_order_deliveries": reorders, "sync_answer_windows": windows, "quiescent_moments_judged": qchecks, "replies_lost_with_a_dropped_connection": lost, "observation_scenarios_where_the_rpc_tracer_rewrote_mutation_called": rewr}
 	res.WallS = time.Since(t0).Seconds()
 	return res
 }
